@@ -60,6 +60,10 @@ pub struct Step<'a> {
     pub resurrected: &'a [H],
 }
 
+/// A failure with this signature prefix is reported like any other, but the successor state is still explored (the
+/// forest is otherwise exactly as predicted, so the exploration behind it is meaningful).
+pub const SOFT_SIGNATURE: &str = "model:merged-into-later-node";
+
 pub struct Verdict {
     pub fails: Vec<Fail>,
     /// expand the successor state (false: refused / panicked / broken / out-of-contract)
@@ -194,6 +198,7 @@ pub fn bfs(ctx: &Ctx, oracle: &dyn Oracle, starts: &[Start], depth: usize) -> Bf
                         for op in ops[*lo..*hi_end].iter().cloned() {
                             let (v, post, post_forest) = run_step(oracle, &w, &f, &op, &mut st);
                             st.bump("transitions");
+                            let blocking = v.fails.iter().any(|f| !f.sig.starts_with(SOFT_SIGNATURE));
                             if !v.fails.is_empty() {
                                 let mut ops = hist.clone();
                                 ops.push(op.clone());
@@ -201,7 +206,8 @@ pub fn bfs(ctx: &Ctx, oracle: &dyn Oracle, starts: &[Start], depth: usize) -> Bf
                                 for fl in v.fails {
                                     st.fail(&case, fl);
                                 }
-                            } else if v.expand {
+                            }
+                            if !blocking && v.expand {
                                 if let Ok(pf) = &post_forest {
                                     let key = key128(&state_key(&post, pf));
                                     st.outcome(&key);
@@ -290,12 +296,14 @@ pub fn sweep_depth1(ctx: &Ctx, oracle: &dyn Oracle, starts: &[Start]) -> BfsResu
                 let (v, post, post_forest) = run_step(oracle, &w, &f, &op, &mut st);
                 st.bump("transitions");
                 transitions += 1;
+                let blocking = v.fails.iter().any(|f| !f.sig.starts_with(SOFT_SIGNATURE));
                 if !v.fails.is_empty() {
                     let case = HistoryCase { start: start.clone(), ops: vec![op.clone()] };
                     for fl in v.fails {
                         st.fail(&case, fl);
                     }
-                } else if v.expand {
+                }
+                if !blocking && v.expand {
                     if let Ok(pf) = &post_forest {
                         let key = key128(&state_key(&post, pf));
                         st.outcome(&key);
